@@ -152,16 +152,16 @@ impl<'a> WireFormat<'a> for SVCB<'a> {
     where
         Self: Sized,
     {
-        let priority = u16::from_be_bytes(data[*position..*position + 2].try_into()?);
+        let priority = u16::from_be_bytes(data.get(*position..*position + 2).ok_or(crate::SimpleDnsError::InsufficientData)?.try_into()?);
         *position += 2;
 
         let target = Name::parse(data, position)?;
         let mut params = BTreeMap::new();
         let mut previous_key = -1;
         while *position < data.len() {
-            let key = u16::from_be_bytes(data[*position..*position + 2].try_into()?);
+            let key = u16::from_be_bytes(data.get(*position..*position + 2).ok_or(crate::SimpleDnsError::InsufficientData)?.try_into()?);
             let value_length = usize::from(u16::from_be_bytes(
-                data[*position + 2..*position + 4].try_into()?,
+                data.get(*position + 2..*position + 4).ok_or(crate::SimpleDnsError::InsufficientData)?.try_into()?,
             ));
             if i32::from(key) <= previous_key {
                 return Err(crate::SimpleDnsError::InvalidDnsPacket);
@@ -169,7 +169,7 @@ impl<'a> WireFormat<'a> for SVCB<'a> {
             previous_key = i32::from(key);
             params.insert(
                 key,
-                Cow::Borrowed(&data[*position + 4..*position + 4 + value_length]),
+                Cow::Borrowed(data.get(*position + 4..*position + 4 + value_length).ok_or(crate::SimpleDnsError::InsufficientData)?),
             );
             *position += 4 + value_length;
         }
